@@ -102,6 +102,7 @@ BOUNDS = {
 OUTSIDE = "machines driven in turn from different OS threads (the symbolic engine is per-thread; C06 covers the loop-per-thread facade structurally); rtc=False (rejected by the async engine at construction, documented)"
 OBLIGATIONS = ["twins-agree", "in-loop-driver", "sync-facade-driver", "single-coroutine-callback", "async-raise", "async-nested-send", "activation-by-first-event"]
 ASSUMPTIONS = [
+    "the two twins carry identical class and callback qualified names (as when produced by one factory function); the signature cache is cleared at the start of every path",
     "twin equality is asserted where both twins complete initial activation before the first user event; the deferred activation of the async twin (documented) is judged by the acceptor",
     "callbacks abandoned by a failed asyncio.gather may finish later; their trailing records are ignored (tolerance 3)",
     "order inside a group is free on both twins; results are compared as before-values then on-values in observed order",
@@ -120,7 +121,8 @@ def twin_results_equal(a, b):
 def make_twin(ctx, am, params, script_kw):
     with ctx.notracing():
         box = [None]
-        r = render(am, box, class_name="C05M")
+        # both twins come out of the same "factory": same class name and the same qualified names for their callbacks
+        r = render(am, box, class_name="C05M", uid="twin:0")
         script = Script(ctx, am, **script_kw)
         box[0] = script
         listeners = [c() for c in r["listener_classes"]]
@@ -128,6 +130,15 @@ def make_twin(ctx, am, params, script_kw):
 
 
 def run(ctx, params):
+    with ctx.notracing():
+        try:
+            from statemachine.signature import SignatureAdapter
+
+            clear = getattr(SignatureAdapter.from_callable, "clear_cache", None)
+            if clear is not None:
+                clear()
+        except Exception:  # noqa: BLE001
+            pass
     mctx = MemoCtx(ctx)
     subset = params["subset"]
     expr = params["expr"]
